@@ -108,4 +108,5 @@ SHARDS.update({
 
 SHARDS.update({
     "urwid/widget/pile.py:Pile._get_fixed_rows_sizes": (8, 6),
+    "urwid/widget/columns.py:Columns._get_fixed_column_sizes": (8, 6),
 })
